@@ -70,6 +70,10 @@ DefaultLCKeyedByPointLabel == ~Fixed
 LigeroZeroPolyPanics == ~Fixed
 \* Brakedown: commit refuses a polynomial that does not fit the parameters' matrix shape (D15, fixed)
 BrakedownGuardsSize == Fixed
+\* batch_open / batch_check group a query set in a BTreeMap: keyed by the point label alone (the point of a label is
+\* the FIRST one seen; queries at a second point under the same label, and the evaluations claimed there, are
+\* dropped silently), or by (point label, point) so that every query lands in a group?  (defect D16 of DESIGN.md)
+BatchGroupsByLabelAndPoint == Fixed
 \* linear codes: setup refuses num_vars = 0                                   (D14, fixed)
 LinCodeRefusesZeroVars == Fixed
 \* KZG-family commit accepts hiding_bound = Some(0) (blinds with a degree-1 polynomial); known finding D13
